@@ -293,7 +293,18 @@ StepCfg(ev) ==
               [] OTHER -> cfg
   /\ UNCHANGED <<song, pos, exec, fails, drift>>
   /\ cnt' = [cnt EXCEPT !.steps = @ + 1]
-StepPlayTicks(ev) ==
+\* a runaway play (log cut at 6000 entries, or thousands of calls): everything derived from the log is quadratic in its
+\* length for TLC, so it is judged from the scalars only: a play that was expected to end did not
+BigPlay(ev) == ev.trunc = 1 \/ ev.ncalls > 1500
+StepPlayBig(ev) ==
+  LET expectedToEnd == ~cfg.loopEn \/ cfg.loopN >= 0
+      judged == ~pos.moved /\ "partial" \notin DOMAIN ev /\ expectedToEnd
+      f == IF judged THEN {"delivery-count"} \cup Lbl(ev.atend = 1, "not-at-end") ELSE {}
+  IN /\ fails' = AddFails(Tag(IF cfg.loopEn THEN "C09" ELSE "C07", f, ev, ToString(<<"runaway play: calls", ev.ncalls, "log cut", ev.trunc, "n", cfg.loopN>>)))
+     /\ pos' = [pos EXCEPT !.moved = TRUE, !.stgt = -1]
+     /\ UNCHANGED <<song, cfg, exec, drift>>
+     /\ cnt' = [cnt EXCEPT !.steps = @ + 1, !.plays = @ + 1, !.loopPlays = @ + (IF cfg.loopEn THEN 1 ELSE 0)]
+StepPlayNormal(ev) ==
   LET \* partial: deliberately stopped after a few calls; trunc: the harness cut the log at 6000 entries, which a play that
       \* is expected to end never reaches (then it is judged: it did not end)
       full == ~pos.moved /\ "partial" \notin DOMAIN ev /\ (ev.trunc = 0 \/ ~cfg.loopEn \/ cfg.loopN >= 0)
@@ -370,7 +381,7 @@ Next ==
           [] ev.e = "Song" -> StepSong(ev)
           [] ev.e = "Load" -> StepLoad(ev)
           [] ev.e \in {"SetLoop", "SetLoopCount", "SetTempo", "SetHooks", "TrackOpt", "ChanEn"} -> StepCfg(ev)
-          [] ev.e = "PlayTicks" -> StepPlayTicks(ev)
+          [] ev.e = "PlayTicks" -> IF BigPlay(ev) THEN StepPlayBig(ev) ELSE StepPlayNormal(ev)
           [] ev.e = "Seek" -> StepSeek(ev)
           [] ev.e = "Rewind" -> StepRewind(ev)
           [] ev.e = "PlayAudio" -> StepPlayAudio(ev)
